@@ -6,12 +6,21 @@ Helper lemmas for C02 (Distributed Shampoo update = documented blocked-Shampoo m
 * the flat statistics list = the (block, axis)-indexed family (`lowStats_eq_specStats`), `pdims_length`;
 * arithmetic selection = documented selection (`blend_eq_select`, `lowTransform_eq_specTransform`);
 * closed form of the statistics recurrence over a history (`statRun_closed`);
+* congruence of `merge_partitions` / reshape w.r.t. index-wise equality (`RelK`, `mergePartitions_relK`), hence
+  `lowPrecondGrad_eq_specPrecondGrad` and `lowUpdate_eq_specUpdate`;
+* the compressed branch: `packedStep_eq_tensordot0` (packed application = dense application of the denoted matrix),
+  `denoteMx_eq_C10_denote`, `lowUpdateC_eq_specUpdate`;
 * the documented per-coordinate update formula (`spec_update_coord`) and the lr factorisation (`spec_lr_decoupled`).
 -/
 import PrecondVerif.Model.DShampoo
 import PrecondVerif.Lemmas.Graft
 import PrecondVerif.Lemmas.Partition
+import PrecondVerif.Props.C06
 import Mathlib.Tactic.Ring
+import Mathlib.Algebra.BigOperators.Ring.Finset
+import Mathlib.Algebra.BigOperators.Intervals
+import Mathlib.Algebra.BigOperators.Fin
+import PrecondVerif.Model.LowRank
 
 set_option linter.unusedSectionVars false
 set_option linter.unusedSimpArgs false
@@ -465,4 +474,364 @@ theorem spec_lr_decoupled (sqrt : α → α) (nc : Nat → α) (h : Hyper α) (s
 
 end Coord
 
+section Cong
+variable {α : Type} [Inhabited α]
+
+/-- equal shapes, equal entries on the indices satisfying `K` -/
+def RelK (K : List Nat → Prop) (t u : Tensor α) : Prop :=
+  t.shape = u.shape ∧ ∀ idx, K idx → t.get idx = u.get idx
+
+/-- `K` is stable under overwriting one coordinate -/
+def SetClosed (K : List Nat → Prop) : Prop := ∀ idx a j, K idx → K (idx.set a j)
+
+theorem relK_refl (K : List Nat → Prop) (t : Tensor α) : RelK K t t := ⟨rfl, fun _ _ => rfl⟩
+
+theorem forall₂_map_eq {β γ : Type} {R : β → β → Prop} (f : β → γ) (hf : ∀ a b, R a b → f a = f b) :
+    ∀ {l1 l2 : List β}, List.Forall₂ R l1 l2 → l1.map f = l2.map f
+  | _, _, .nil => rfl
+  | _, _, .cons h t => by simp [hf _ _ h, forall₂_map_eq f hf t]
+
+theorem forall₂_getD {β : Type} {R : β → β → Prop} (d : β) (hd : R d d) :
+    ∀ {l1 l2 : List β}, List.Forall₂ R l1 l2 → ∀ k, R (l1.getD k d) (l2.getD k d)
+  | _, _, .nil, k => by simpa using hd
+  | _, _, .cons h t, 0 => by simpa using h
+  | _, _, .cons h t, k + 1 => by simpa using forall₂_getD d hd t k
+
+theorem concat_relK (K : List Nat → Prop) (hK : SetClosed K) (a : Nat) (ts us : List (Tensor α))
+    (h : List.Forall₂ (RelK K) ts us) : RelK K (Tensor.concat ts a) (Tensor.concat us a) := by
+  have hsizes : ts.map (fun t => t.shape.getD a 0) = us.map (fun t => t.shape.getD a 0) :=
+    forall₂_map_eq _ (fun x y hxy => by rw [hxy.1]) h
+  have hhead : (ts.headD ⟨[], fun _ => default⟩).shape = (us.headD ⟨[], fun _ => default⟩).shape := by
+    cases h with
+    | nil => rfl
+    | cons h1 _ => exact h1.1
+  refine ⟨?_, ?_⟩
+  · show List.set _ a _ = List.set _ a _
+    rw [hsizes, hhead]
+  · intro idx hi
+    show (ts.getD _ _).get _ = (us.getD _ _).get _
+    rw [hsizes]
+    exact (forall₂_getD _ (relK_refl K _) h _).2 _ (hK _ _ _ hi)
+
+theorem chunks_eq_cons {β : Type} (n : Nat) (l : List β) (h : ¬ (n = 0 ∨ l = [])) :
+    chunks n l = l.take n :: chunks n (l.drop n) := by
+  rw [chunks, dif_neg h]
+
+theorem chunks_eq_nil {β : Type} (n : Nat) (l : List β) (h : n = 0 ∨ l = []) : chunks n l = [] := by
+  rw [chunks, dif_pos h]
+
+theorem chunks_forall₂ {β : Type} (R : β → β → Prop) (n : Nat) :
+    ∀ (k : Nat) (l1 l2 : List β), l1.length ≤ k → List.Forall₂ R l1 l2 →
+      List.Forall₂ (List.Forall₂ R) (chunks n l1) (chunks n l2)
+  | 0, l1, l2, hk, h => by
+    have h1 : l1 = [] := List.length_eq_zero_iff.mp (Nat.le_zero.mp hk)
+    subst h1
+    have h2 : l2 = [] := by simpa using h
+    subst h2
+    rw [chunks_nil]; exact .nil
+  | k + 1, l1, l2, hk, h => by
+    by_cases hc : n = 0 ∨ l1 = []
+    · have hc2 : n = 0 ∨ l2 = [] := by
+        rcases hc with hc | hc
+        · exact Or.inl hc
+        · subst hc; right; simpa using h
+      rw [chunks_eq_nil n l1 hc, chunks_eq_nil n l2 hc2]; exact .nil
+    · have hc2 : ¬ (n = 0 ∨ l2 = []) := by
+        intro h2
+        rcases h2 with h2 | h2
+        · exact hc (Or.inl h2)
+        · subst h2
+          have : l1 = [] := by simpa using h
+          exact hc (Or.inr this)
+      rw [chunks_eq_cons n l1 hc, chunks_eq_cons n l2 hc2]
+      refine .cons (List.forall₂_take n h) ?_
+      apply chunks_forall₂ R n k _ _ _ (List.forall₂_drop n h)
+      have hn : 0 < n := Nat.pos_of_ne_zero (fun h0 => hc (Or.inl h0))
+      have hl : 0 < l1.length := List.length_pos_iff.mpr (fun h0 => hc (Or.inr h0))
+      simp only [List.length_drop]
+      omega
+
+theorem mergeStep_relK (K : List Nat → Prop) (hK : SetClosed K) (sz : Nat → List Nat) (a : Nat)
+    (ps qs : List (Tensor α)) (h : List.Forall₂ (RelK K) ps qs) :
+    List.Forall₂ (RelK K) (mergeStep sz a ps) (mergeStep sz a qs) := by
+  unfold mergeStep
+  rw [List.forall₂_map_left_iff, List.forall₂_map_right_iff]
+  exact (chunks_forall₂ (RelK K) _ ps.length ps qs (Nat.le_refl _) h).imp
+    (fun g1 g2 hg => concat_relK K hK a g1 g2 hg)
+
+theorem mergeAxesRev_relK (K : List Nat → Prop) (hK : SetClosed K) (sz : Nat → List Nat) (axes : List Nat)
+    (ps qs : List (Tensor α)) (h : List.Forall₂ (RelK K) ps qs) :
+    List.Forall₂ (RelK K) (mergeAxesRev sz axes ps) (mergeAxesRev sz axes qs) := by
+  induction axes with
+  | nil => simpa [mergeAxesRev] using h
+  | cons a rest ih =>
+    rw [mergeAxesRev_cons, mergeAxesRev_cons]
+    exact mergeStep_relK K hK sz a _ _ ih
+
+/-- `merge_partitions` respects index-wise equality: equal outcome of the assert, related results -/
+theorem mergePartitions_relK (K : List Nat → Prop) (hK : SetClosed K) (shape : List Nat) (b : Nat)
+    (ps qs : List (Tensor α)) (h : List.Forall₂ (RelK K) ps qs) :
+    (mergePartitions shape b ps = none ∧ mergePartitions shape b qs = none) ∨
+    ∃ t u, mergePartitions shape b ps = some t ∧ mergePartitions shape b qs = some u ∧ RelK K t u := by
+  rw [mergePartitions_eq, mergePartitions_eq]
+  have r := mergeAxesRev_relK K hK (fun i => splitSizes (shape.getD i 0) b) (splitAxes shape b) ps qs h
+  generalize mergeAxesRev (fun i => splitSizes (shape.getD i 0) b) (splitAxes shape b) ps = r1 at r
+  generalize mergeAxesRev (fun i => splitSizes (shape.getD i 0) b) (splitAxes shape b) qs = r2 at r
+  cases r with
+  | nil => left; exact ⟨rfl, rfl⟩
+  | cons hab htl =>
+    cases htl with
+    | nil => right; exact ⟨_, _, rfl, rfl, hab⟩
+    | cons _ _ => left; exact ⟨rfl, rfl⟩
+
+theorem partAxes_shape_length (sz : Nat → List Nat) (r : Nat) : ∀ (axes : List Nat) (ts : List (Tensor α)),
+    (∀ t ∈ ts, t.shape.length = r) → ∀ v ∈ partAxes sz axes ts, v.shape.length = r
+  | [], ts, h => by simpa [partAxes] using h
+  | a :: rest, ts, h => by
+    rw [partAxes_cons]
+    apply partAxes_shape_length sz r rest
+    intro v hv
+    simp only [List.mem_flatMap] at hv
+    obtain ⟨u, hu, hvu⟩ := hv
+    obtain ⟨off, size, rfl⟩ := mem_split u v a (sz a) hvu
+    simpa [Tensor.slice] using h u hu
+
+theorem unravel_length : ∀ (s : List Nat) (k : Nat), (unravel s k).length = s.length
+  | [], _ => rfl
+  | _ :: ss, k => by simp [unravel, unravel_length ss]
+
+theorem blocks_shape_length [OfNat α 0] (G : Geom) (g : List α) : ∀ v ∈ G.blocks g, v.shape.length = G.rank := by
+  unfold Geom.blocks
+  rw [partition_eq_partAxes]
+  apply partAxes_shape_length
+  intro t ht
+  simp only [List.mem_singleton] at ht
+  subst ht
+  rfl
+
+end Cong
+
+section Final
+variable {α : Type} [Add α] [Mul α] [OfNat α 0] [Inhabited α]
+
+/-- **`Preconditioner.preconditioned_grad` = documented blocked mode products**, every rank, block layout,
+preconditioner type; moreover the assert of `merge_partitions` never fails. -/
+theorem lowPrecondGrad_eq_specPrecondGrad (G : Geom) (P : List (Mx α)) (g : List α) :
+    lowPrecondGrad G P g = specPrecondGrad G P g ∧ (specPrecondGrad G P g).isSome = true := by
+  unfold lowPrecondGrad specPrecondGrad precondGradWith Geom.assemble
+  have hbl := blocks_shape_length G g
+  have hslots : ∀ b, (slotMats P Mx.zero (specSlots G.ptype G.rank b)).length = G.rank := by
+    intro b; simp [slotMats, specSlots]
+  -- Low blocks ~ Spec blocks on indices of length rank
+  have hrel : List.Forall₂ (RelK (fun idx => idx.length = G.rank))
+      ((G.blocks g).zipIdx.map fun gb => lowBlock gb.1 (slotMats P Mx.zero (lowSlots G.ptype G.rank gb.2)))
+      ((G.blocks g).zipIdx.map fun gb => specBlock gb.1 (slotMats P Mx.zero (specSlots G.ptype G.rank gb.2))) := by
+    rw [List.forall₂_map_left_iff, List.forall₂_map_right_iff, List.forall₂_same]
+    intro x hx
+    have hx1 : x.1.shape.length = G.rank := hbl _ (List.fst_mem_of_mem_zipIdx hx)
+    rw [lowSlots_eq_specSlots]
+    obtain ⟨h1, h2, h3⟩ := lowBlock_eq_specBlock x.1 _ ((hslots x.2).trans hx1.symm)
+    exact ⟨h1.trans h2.symm, fun idx hi => h3 idx (hi.trans hx1.symm)⟩
+  -- Spec blocks have the shapes of the blocks
+  have hshape : List.Forall₂ (RelK (fun _ => False))
+      ((G.blocks g).zipIdx.map fun gb => specBlock gb.1 (slotMats P Mx.zero (specSlots G.ptype G.rank gb.2)))
+      (G.blocks g) := by
+    have : List.Forall₂ (RelK (fun _ => False))
+        ((G.blocks g).zipIdx.map fun gb => specBlock gb.1 (slotMats P Mx.zero (specSlots G.ptype G.rank gb.2)))
+        ((G.blocks g).zipIdx.map Prod.fst) := by
+      rw [List.forall₂_map_left_iff, List.forall₂_map_right_iff, List.forall₂_same]
+      intro x hx
+      have hx1 : x.1.shape.length = G.rank := hbl _ (List.fst_mem_of_mem_zipIdx hx)
+      exact ⟨(lowBlock_eq_specBlock x.1 _ ((hslots x.2).trans hx1.symm)).2.1, fun _ hf => hf.elim⟩
+    rwa [List.zipIdx_map_fst] at this
+  have hK1 : SetClosed (fun idx : List Nat => idx.length = G.rank) := by
+    intro idx a j h; simpa using h
+  have hK0 : SetClosed (fun _ : List Nat => False) := fun _ _ _ h => h
+  obtain ⟨u, hu, huE⟩ := C06.merge_partition_id ((ofFlat G.shape g).reshape G.tshape) G.block
+  have hu' : mergePartitions G.tshape G.block (G.blocks g) = some u := hu
+  have huS : u.shape = G.tshape := huE.1
+  rcases mergePartitions_relK _ hK0 G.tshape G.block _ _ hshape with ⟨_, h2⟩ | ⟨tS, u2, hS, h2, hr0⟩
+  · rw [hu'] at h2; cases h2
+  · rw [hu'] at h2
+    cases h2
+    have htS : tS.shape.length = G.rank := by rw [hr0.1, huS]; rfl
+    rcases mergePartitions_relK _ hK1 G.tshape G.block _ _ hrel with ⟨_, h4⟩ | ⟨tL, tS2, hL, h4, hr1⟩
+    · rw [hS] at h4; cases h4
+    · rw [hS] at h4
+      cases h4
+      rw [hL, hS]
+      refine ⟨?_, rfl⟩
+      simp only [Option.map_some, Option.some.injEq, Tensor.flat, Tensor.reshape]
+      apply List.map_congr_left
+      intro idx _
+      rw [hr1.1]
+      exact hr1.2 _ (by show (unravel _ _).length = _; rw [unravel_length]; exact htS)
+
+theorem allIdx_length : ∀ s : List Nat, (allIdx s).length = prod s
+  | [] => rfl
+  | s :: ss => by
+    simp only [allIdx, List.length_flatMap, List.length_map, allIdx_length ss, prod_cons]
+    simp [List.map_const', List.sum_replicate]
+
+theorem specPrecondGrad_length (G : Geom) (P : List (Mx α)) (g pg : List α)
+    (h : specPrecondGrad G P g = some pg) : pg.length = prod G.shape := by
+  unfold specPrecondGrad precondGradWith Geom.assemble at h
+  rw [Option.map_eq_some_iff] at h
+  obtain ⟨t, _, rfl⟩ := h
+  simp [Tensor.flat, Tensor.reshape, allIdx_length]
+
+end Final
+
+section Whole
+variable {α : Type} [Field α] [LinearOrder α] [IsStrictOrderedRing α] [Inhabited α]
+
+/-- the whole update half of one call: code-shaped model = documented math -/
+theorem lowUpdate_eq_specUpdate (sqrt : α → α) (nc : Nat → α) (sharded : Bool) (G : Geom) (h : Hyper α)
+    (step : Nat) (skip : Bool) (g param : List α) (st : PState α) (before after : List (Mx α))
+    (hgr : (dsGraftStep sqrt nc h.g g st.diag).1.length = prod G.shape) (hg : g.length = prod G.shape)
+    (hp : param.length = prod G.shape) (hm : st.mom.length = prod G.shape)
+    (hdm : st.dmom.length = prod G.shape) :
+    lowUpdate sqrt nc sharded G h step skip g param st before after =
+      specUpdate sqrt nc sharded G h step skip g param st before after := by
+  unfold lowUpdate specUpdate
+  rw [(lowPrecondGrad_eq_specPrecondGrad G _ g).1]
+  cases skip
+  · simp only [Bool.false_eq_true, if_false]
+    cases hpg : specPrecondGrad G (usedPreconds sharded before after) g with
+    | none => rfl
+    | some pg =>
+      simp only [Option.map_some]
+      rw [lowTransform_eq_specTransform sqrt nc h step false g param st pg (prod G.shape) hgr hp
+        (specPrecondGrad_length G _ g pg hpg) hm hdm]
+  · simp only [if_true, Option.map_some]
+    rw [lowTransform_eq_specTransform sqrt nc h step true g param st g (prod G.shape) hgr hp hg hm hdm]
+
+end Whole
+section Packed
+variable {α : Type} [CommRing α] [BEq α]
+
+omit [BEq α] in
+theorem lsum_append' (l1 l2 : List α) : lsum (l1 ++ l2) = lsum l1 + lsum l2 := by
+  induction l1 with
+  | nil => simp [lsum]
+  | cons x xs ih =>
+    have : lsum (x :: xs ++ l2) = x + lsum (xs ++ l2) := rfl
+    rw [this, ih]
+    have : lsum (x :: xs) = x + lsum xs := rfl
+    rw [this, add_assoc]
+
+omit [BEq α] in
+theorem lsum_range (n : Nat) (f : Nat → α) : lsum ((List.range n).map f) = ∑ i ∈ Finset.range n, f i := by
+  induction n with
+  | zero => simp [lsum]
+  | succ n ih =>
+    rw [List.range_succ, List.map_append, lsum_append', ih, Finset.sum_range_succ]
+    simp [lsum]
+
+omit [BEq α] in
+theorem sum_delta (n b : Nat) (f : Nat → α) :
+    ∑ j ∈ Finset.range n, f j * (if j = b then 1 else 0) = if b < n then f b else 0 := by
+  simp [Finset.sum_ite_eq', mul_ite]
+
+/-- the compressed branch is the dense branch with the matrix the packed preconditioner denotes (any `V`, `e`,
+`c`; identity when flagged) — as index functions, for every tensor rank -/
+theorem packedStep_eq_tensordot0 (g : Tensor α) (d r : Nat) (P : Mx α) :
+    packedStep g d r P = tensordot0 g (denoteStored (.packed d r P)) := by
+  unfold packedStep tensordot0 denoteStored
+  congr 1
+  funext idx
+  simp only [lsum_range]
+  by_cases hs : pkSkip d r P = true
+  · simp only [hs, if_true, precondInit]
+    exact (sum_delta (g.shape.headD 0) (idx.getLastD 0) (fun j => g.get (j :: idx.dropLast))).symm
+  · simp only [hs, Bool.false_eq_true, if_false, denoteMx, lsum_range]
+    have hd : (if idx.getLastD 0 < g.shape.headD 0 then g.get (idx.getLastD 0 :: idx.dropLast) else 0) =
+        ∑ j ∈ Finset.range (g.shape.headD 0), g.get (j :: idx.dropLast) * (if j = idx.getLastD 0 then 1 else 0) :=
+      (sum_delta (g.shape.headD 0) (idx.getLastD 0) (fun j => g.get (j :: idx.dropLast))).symm
+    rw [hd]
+    simp only [Finset.sum_mul, Finset.mul_sum, mul_add, mul_sub, Finset.sum_add_distrib, Finset.sum_sub_distrib]
+    rw [Finset.sum_comm (s := Finset.range r), Finset.sum_comm (s := Finset.range r)]
+    congr 1
+    · congr 1
+      · apply Finset.sum_congr rfl; intro j _; ring
+      · apply Finset.sum_congr rfl; intro j _
+        apply Finset.sum_congr rfl; intro q _; ring
+    · apply Finset.sum_congr rfl; intro j _
+      apply Finset.sum_congr rfl; intro q _; ring
+
+omit [BEq α] in
+theorem lsum_range_eq_sumFin (r : Nat) (F : Nat → α) :
+    lsum ((List.range r).map F) = LowRank.sumFin r (fun q => F q.val) := by
+  unfold LowRank.sumFin
+  rw [← Fin.sum_univ_def, ← Finset.sum_range (f := F)]
+  exact lsum_range r F
+
+omit [BEq α] in
+/-- the denoted matrix is C10's `denote` of the unpacked fields (so C10's theorems — `denote_is_documented_matrix`,
+`low_rank_root_denotes` — speak about the very matrix the Spec multiplies with) -/
+theorem denoteMx_eq_C10_denote (d r : Nat) (P : Mx α) (i b : Fin d) :
+    denoteMx r P i.val b.val =
+      LowRank.denote (fun (i : Fin d) (q : Fin r) => P i.val q.val) (fun q => pkE r P q.val) (pkC r P) i b := by
+  unfold denoteMx LowRank.denote
+  rw [lsum_range_eq_sumFin, lsum_range_eq_sumFin]
+  simp only [Fin.val_inj]
+
+theorem lowBlockStepC_eq (g : Tensor α) (s : Option (Stored α)) :
+    lowBlockStepC g s = lowBlockStep g (s.map denoteStored) := by
+  cases s with
+  | none => rfl
+  | some st =>
+    cases st with
+    | dense P => rfl
+    | packed d r P => exact packedStep_eq_tensordot0 g d r P
+
+theorem lowBlockC_eq (g : Tensor α) (slots : List (Option (Stored α))) :
+    lowBlockC g slots = lowBlock g (slots.map (Option.map denoteStored)) := by
+  unfold lowBlockC lowBlock
+  induction slots generalizing g with
+  | nil => rfl
+  | cons s ss ih => simp only [List.foldl_cons, List.map_cons, lowBlockStepC_eq, ih]
+
+theorem slotStored_map (P : List (Stored α)) (slots : List (Option Nat)) :
+    (slotStored P (.dense Mx.zero) slots).map (Option.map denoteStored) =
+      slotMats (P.map denoteStored) Mx.zero slots := by
+  unfold slotStored slotMats
+  rw [List.map_map]
+  apply List.map_congr_left
+  intro o _
+  cases o with
+  | none => rfl
+  | some ix =>
+    simp only [Function.comp, Option.map_some]
+    congr 1
+    simp only [List.getD_eq_getElem?_getD, List.getElem?_map]
+    cases P[ix]? <;> rfl
+
+/-- `preconditioned_grad` with compressed preconditioners = `preconditioned_grad` with the dense matrices they
+denote -/
+theorem lowPrecondGradC_eq [Inhabited α] (G : Geom) (P : List (Stored α)) (g : List α) :
+    lowPrecondGradC G P g = lowPrecondGrad G (P.map denoteStored) g := by
+  unfold lowPrecondGradC lowPrecondGrad
+  congr 1
+  funext b gb
+  rw [lowBlockC_eq, slotStored_map]
+
+end Packed
+
+section WholeC
+variable {α : Type} [Field α] [LinearOrder α] [IsStrictOrderedRing α] [Inhabited α]
+
+theorem lowUpdateC_eq_specUpdate (sqrt : α → α) (nc : Nat → α) (sharded : Bool) (G : Geom) (h : Hyper α)
+    (step : Nat) (skip : Bool) (g param : List α) (st : PState α) (before after : List (Stored α))
+    (hgr : (dsGraftStep sqrt nc h.g g st.diag).1.length = prod G.shape) (hg : g.length = prod G.shape)
+    (hp : param.length = prod G.shape) (hm : st.mom.length = prod G.shape)
+    (hdm : st.dmom.length = prod G.shape) :
+    lowUpdateC sqrt nc sharded G h step skip g param st before after =
+      specUpdate sqrt nc sharded G h step skip g param st (before.map denoteStored) (after.map denoteStored) := by
+  rw [← lowUpdate_eq_specUpdate sqrt nc sharded G h step skip g param st _ _ hgr hg hp hm hdm]
+  unfold lowUpdateC lowUpdate
+  rw [lowPrecondGradC_eq]
+  cases sharded <;> rfl
+
+end WholeC
 end PrecondVerif.DShampoo
